@@ -16,6 +16,8 @@ COMPONENTS = {
             "flowjax.train.train_utils.step/train_val_split/get_batches/count_fruitless",
             "equinox partition/combine/apply_updates/filter_jit/filter_value_and_grad",
             "flowjax.wrappers.NonTrainable", "jax.random", "tqdm (stream redirected to memory)",
+            "caller threads of concurrent groups: real threading.Thread objects running the real loops; only the choice of who "
+            "runs next is simulated (baton passed at sys.settrace line events of eager flowjax/train frames)",
         ],
         "stub": [
             "dist: 4-leaf pytree {c, w, script: NonTrainable, aux:int}",
@@ -40,7 +42,7 @@ COMPONENTS = {
 
 
 def build(*, prop, tier, seed, spec, runs, distinct_nontrivial, n_nontrivial, samples, fired, probes, modes,
-          faultfree, ltime, wall, nw, det, rechecked, dones, violations, known_hits, harness_errors):
+          faultfree, ltime, wall, nw, det, rechecked, dones, violations, known_hits, harness_errors, concurrency=None):
     from sim import rules
 
     enabled = rules.ENABLED_FAULTS.get(prop)
@@ -76,6 +78,8 @@ def build(*, prop, tier, seed, spec, runs, distinct_nontrivial, n_nontrivial, sa
         "repo": core.repo_identity(),
         "not_exercised": rules.NOT_EXERCISED.get(prop, []),
     }
+    if concurrency:
+        cov["concurrent_callers"] = concurrency
     return {
         "property_id": prop,
         "tier": tier,
